@@ -39,7 +39,7 @@ def tlc_behaviours(ctx, cfg, n, depth, name="sim"):
     return hs
 
 
-def random_history(rng, length, ids, topos, fuzzies, ents, tols, with_reopen=True, thetas=None):
+def random_history(rng, length, ids, topos, fuzzies, ents, tols, with_reopen=True, thetas=None, with_meta=False):
     """Collision-heavy seeded history: small pools, update-then-delete, batch duplicates,
     rebuild after update, reopen, auto IDs, error paths."""
     def sig(idpool=None):
@@ -47,6 +47,16 @@ def random_history(rng, length, ids, topos, fuzzies, ents, tols, with_reopen=Tru
                 "ent": rng.choice(ents), "tol": rng.choice(tols), "ver": 0}
     h = []
     for _ in range(length):
+        if with_meta and rng.random() < 0.12:
+            # database metadata lives in its own key space of the embedded store
+            m = rng.random()
+            if m < 0.5:
+                h.append({"op": {"op": "setmeta", "key": rng.choice(["k1", "k2", "description", "version"]), "value": rng.choice(["a", "b", "sig:i1", ""])}})
+            elif m < 0.75:
+                h.append({"op": {"op": "delmeta", "key": rng.choice(["k1", "k2", "description", "nokey"])}})
+            else:
+                h.append({"op": {"op": "initmeta", "value": rng.choice(["1.0", "2.7"]), "key": rng.choice(["", "db one", "db two"])}})
+            continue
         r = rng.random()
         if r < 0.32:
             s = sig()
